@@ -12,7 +12,7 @@
    [rf_is_request_line], [rf_unescape_roff] inside [rf_doc_text]) and the general
    expectation [rf_general_doc] (styles accumulate, 256-colour / RGB forms select a colour). *)
 From Coq Require Import NArith List Bool.
-From AV Require Import Spec.Lossy Spec.StyleRec Spec.RoffSpec Model.Roff Proofs.Roff.
+From AV Require Import Spec.Lossy Spec.StyleRec Spec.RoffSpec Model.Base Model.Roff Proofs.Roff Generated.RoffFn Proofs.RoffGen.
 Import ListNotations.
 Local Open Scope N_scope.
 
@@ -91,3 +91,38 @@ Theorem c15_rgb_branch_correct : forall (req : list N) (c : color),
   end ->
   rf_color_requests req (Some c) = Some (rf_gen_color_requests req (Some (rf_tcolor_of c))).
 Proof. exact rf_rgb_branch_correct. Qed.
+
+(* ---- the translated code (tools/gen_fn_roff.py -> Generated/RoffFn.v) -------------------------
+   [g_to_roff], [g_add_color_to_roff], [g_styled_stream] .. are the Rust functions of
+   crates/anstyle-roff/src/{lib.rs,styled_str.rs} translated by tools/rs2v on every run; cansi and roff
+   (third party) stay the hand model ([rf_categorise], [rf_render], the document = the lines pushed). *)
+
+(* anstyle_roff::to_roff as translated, followed by roff's renderer, IS the hand model [rf_to_roff] the
+   theorems above are about -- for every input, panics (None) included *)
+Theorem c15_translated_to_roff_is_model : forall input : list N,
+  (ls <- g_to_roff input ;; Some (rf_render ls)) = rf_to_roff input.
+Proof. exact translated_to_roff_is_model. Qed.
+
+(* the lines the translated to_roff pushes are the hand model's, slice by slice *)
+Theorem c15_translated_doc_lines_is_model : forall input : list N,
+  g_to_roff input = rf_doc_lines (rf_categorise input).
+Proof. exact g_to_roff_eq. Qed.
+
+(* add_color_to_roff as translated (all four arms, the Ansi256 arm calling itself once), on well-typed
+   colours, rendered: the [rf_color_requests] of c15_rgb_branch_correct *)
+Theorem c15_translated_color_requests_is_model : forall (req : list N) (c : option color),
+  match c with Some c => color_ok c | None => True end ->
+  (ls <- g_add_color_to_roff [] req c ;; Some (rf_render ls)) = rf_color_requests req c.
+Proof. exact translated_color_requests_is_model. Qed.
+
+(* styled_str.rs as translated: the slices of cansi, each converted by From<CategorisedSlice> *)
+Theorem c15_translated_styled_stream_is_model : forall text : list N,
+  g_styled_stream text = Some (map (fun c => mkRfStyled (snd c) (rf_style_of (fst c))) (rf_categorise text)).
+Proof. exact translated_styled_stream_is_model. Qed.
+
+(* hence the translated code has the document shape of the specification on D *)
+Theorem c15_translated_document_shape : forall segs : list rf_seg,
+  rf_D segs ->
+  Forall (fun s => rf_bold_and_faint s = false) segs ->
+  (ls <- g_to_roff (rf_print_D segs) ;; Some (rf_render ls)) = Some (rf_spec_doc segs).
+Proof. exact translated_document_shape. Qed.
